@@ -50,7 +50,7 @@ def main():
             if os_[0].kind == 'smoke':
                 ok = any(o.result == 'sat' for o in os_)
             elif os_[0].expect == 'sat':
-                ok = all(o.result == 'sat' for o in os_)
+                ok = all(o.result != 'unsat' for o in os_)
             else:
                 ok = all(o.result == 'unsat' for o in os_)
             tot += 1
